@@ -63,29 +63,36 @@ theorem C19_nodup (a : FillArgs) (h : Hist) (pixels : List (List Int × Bool)) (
 
 /-! ### key computation (generated kernels), dense pre-fill -/
 
-/-- unsigned channels (and non-negative values of signed channels): the key component is ⌊ch / bin_width⌋;
-    bin width 1 is the identity for every channel type -/
-theorem C19_scale_exact (c : Ch) (ch bw : Int) (hlo : c.lo ≤ ch) (hhi : ch ≤ c.hi) (hbw : 1 ≤ bw) :
-    (0 ≤ ch → scale c ch bw = ch / bw) ∧ (bw = 1 → scale c ch bw = ch) := by
-  constructor
-  · intro h0
-    have hq0 : 0 ≤ ch / bw := Int.ediv_nonneg h0 (by omega)
-    have hq1 : ch / bw ≤ ch := Int.ediv_le_self _ h0
-    cases c <;> simp only [scale, scale_u8, scale_i8, scale_u16, scale_i16, Ch.lo, Ch.hi] at * <;>
-      (try rw [Int.emod_eq_of_lt h0 (by omega)]) <;> omega
-  · intro h1
-    subst h1
-    cases c <;> simp only [scale, scale_u8, scale_i8, scale_u16, scale_i16, Ch.lo, Ch.hi, Int.ediv_one] at * <;> omega
+/-- the key component of every channel type is exactly the C++ quotient ch / bin_width (truncating), for every in-range
+    channel value and every bin width ≥ 1 (generated kernels; signed division since fix 1570f66) -/
+theorem C19_scale_exact (c : Ch) (ch bw : Int) (hlo : c.lo ≤ ch) (hhi : ch ≤ c.hi) (hbw : 1 ≤ bw) (hbw' : bw < 9223372036854775808) :
+    scale c ch bw = Int.tdiv ch bw := by
+  have hw : (bw + 9223372036854775808) % 18446744073709551616 - 9223372036854775808 = bw := by omega
+  have hb : (0 ≤ ch → 0 ≤ Int.tdiv ch bw ∧ Int.tdiv ch bw ≤ ch) ∧ (ch < 0 → ch ≤ Int.tdiv ch bw ∧ Int.tdiv ch bw ≤ 0) := by
+    constructor
+    · intro h0
+      rw [Int.tdiv_eq_ediv_of_nonneg h0]
+      exact ⟨Int.ediv_nonneg h0 (by omega), Int.ediv_le_self _ h0⟩
+    · intro hneg
+      have hn : 0 ≤ -ch := by omega
+      have e : Int.tdiv ch bw = -(Int.tdiv (-ch) bw) := by rw [Int.neg_tdiv, Int.neg_neg]
+      rw [e, Int.tdiv_eq_ediv_of_nonneg hn]
+      have h1 : 0 ≤ (-ch) / bw := Int.ediv_nonneg hn (by omega)
+      have h2 : (-ch) / bw ≤ -ch := Int.ediv_le_self _ hn
+      omega
+  cases c <;> simp only [scale, scale_u8, scale_i8, scale_u16, scale_i16, Ch.lo, Ch.hi, hw] at * <;>
+    (generalize Int.tdiv ch bw = q at *; omega)
 
-/-- KNOWN FINDING, machine-checked: for a negative channel value and a bin width that is not a power of two the key is
-    neither rounding of ch / bin_width (the division is carried out in std::size_t): −1 / 3 lands in bin 85 -/
-theorem C19_signed_binwidth_witness :
-    scale .i8 (-1) 3 = 85 ∧ keySpecOk (-1) 3 (scale .i8 (-1) 3) = false ∧ scale .i16 (-7) 5 = 13105 := by decide
+/-- hence the key is what the property says: the channel divided by the bin width -/
+theorem C19_key_spec_ok (c : Ch) (ch bw : Int) (hlo : c.lo ≤ ch) (hhi : ch ≤ c.hi) (hbw : 1 ≤ bw) (hbw' : bw < 9223372036854775808) :
+    keySpecOk ch bw (scale c ch bw) = true := by
+  rw [C19_scale_exact c ch bw hlo hhi hbw hbw']
+  simp [keySpecOk]
 
-/-- for powers of two the unsigned division agrees with floor division on signed 8-bit channels -/
-theorem C19_signed_pow2_floor (ch : Int) (hlo : -128 ≤ ch) (hhi : ch ≤ 127) :
-    scale .i8 ch 2 = ch / 2 ∧ scale .i8 ch 4 = ch / 4 := by
-  simp only [scale, scale_i8]; omega
+/-- regression witness of the fixed finding C19-signed-binwidth-unsigned-division (1570f66): int8 −1 with bin width 3 is in bin 0
+    (it used to land in bin 85 because the division was carried out in std::size_t) -/
+theorem C19_signed_binwidth_regression :
+    scale .i8 (-1) 3 = 0 ∧ scale .i8 (-3) 3 = -1 ∧ scale .i16 (-7) 5 = -1 := by decide
 
 /-- the dense pre-fill loop terminates by its own condition whenever lower ≤ upper (and the span fits 64 bits) -/
 theorem C19_prefill_terminates (bw lower upper : Int) (h : Hist) (hbw : 1 ≤ bw) (hlu : lower ≤ upper)
@@ -101,11 +108,34 @@ theorem C19_accumulate (a : FillArgs) (h : Hist) (pixels : List (List Int × Boo
     ∧ fillHistogram a false false h pixels = fillHistogram a false false [] pixels := by
   simp [fillHistogram]
 
-/-- KNOWN FINDING, machine-checked: with accumulate = true AND a dense fill the pre-fill assigns 0 to every key of the range,
-    so the previous counts are lost instead of being added to -/
-theorem C19_accumulate_dense_witness :
+/-- the dense pre-fill never changes a count (it only creates keys): `accumulate` keeps adding to the previous contents
+    also for dense fills (fixed finding C19-accumulate-dense-resets, 1570f66) -/
+theorem C19_prefill_preserves_counts (bw lower upper : Int) (h : Hist) (k : Key) :
+    (prefill bw lower upper h).get k = h.get k := by
+  have loop : ∀ (fuel : Nat) (i : Int) (h : Hist), (prefillLoop bw upper fuel i h).1.get k = h.get k := by
+    intro fuel
+    induction fuel with
+    | zero => intro i h; rfl
+    | succ fuel ih =>
+      intro i h
+      unfold prefillLoop
+      split_ifs
+      · rw [ih, get_add]
+        split_ifs with e
+        · subst e; simp
+        · rfl
+      · rfl
+  unfold prefill
+  simp only
+  rw [get_add]
+  split_ifs with e
+  · subst e; rw [loop]; simp
+  · exact loop _ _ _
+
+/-- regression witness: accumulate = true with a dense fill keeps the previous count 5 of bin 1 -/
+theorem C19_accumulate_dense_regression :
     let a : FillArgs := { c := .u8, bw := 1, sel := [], applymask := false, setlimits := false, lower := [0], upper := [3] }
-    fillHistogram a true false [([1], 5)] [([2], true)] = [([1], 0), ([0], 0), ([2], 1), ([3], 0)] := by decide
+    fillHistogram a true false [([1], 5)] [([2], true)] = [([1], 5), ([0], 0), ([2], 1), ([3], 0)] := by decide
 
 /-! ### cumulative histograms -/
 
@@ -256,7 +286,7 @@ theorem C19_normalize_sum_one (h : Hist) (hm : h.mass ≠ 0) :
 example :
     let a : FillArgs := { c := .u8, bw := 2, sel := [], applymask := true, setlimits := true, lower := [1], upper := [3] }
     fill a [] [([5], true), ([4], false), ([7], true), ([9], true), ([2], true)] = [([2], 1), ([3], 1), ([1], 1)] := by decide
-example : Ch.u8.lo ≤ 200 ∧ (200 : Int) ≤ Ch.u8.hi ∧ scale .u8 200 3 = 66 := by decide
+example : Ch.i8.lo ≤ -100 ∧ (-100 : Int) ≤ Ch.i8.hi ∧ scale .i8 (-100) 3 = -33 ∧ scale .u8 200 3 = 66 := by decide
 example : (1 : Int) ≤ 2 ∧ (7 : Int) ≤ 10 ∧ (prefillLoop 2 10 ((10 - 7 : Int).toNat + 1) 7 []).1 = [([3], 0)] := by decide
 example : cumulative 1 [([5], 2), ([1], 1), ([3], 4)] = [([1], 1), ([3], 5), ([5], 7)] := by decide
 example : cumulative 2 [([3, 1], 1), ([3, 2], 1), ([4, 1], 1), ([4, 2], 1)] = [([3, 1], 1), ([3, 2], 2), ([4, 1], 2), ([4, 2], 4)] := by decide
